@@ -96,7 +96,7 @@ CHECKS = {
     "C08": dict(
         parts=[dict(pkg="table", run="^TestC08$",
                     quick=dict(shards=8, checks=80, timeout=300),
-                    thorough=dict(shards=16, checks=2500, timeout=1800)),
+                    thorough=dict(shards=16, checks=450, timeout=1800)),
                dict(pkg="table", run="^TestC08Pinned$",
                     quick=dict(shards=1, checks=1, timeout=120),
                     thorough=dict(shards=1, checks=1, timeout=120)),
@@ -175,22 +175,22 @@ CHECKS = {
         parts=[
             dict(pkg="seat", run="^TestC16SeatManager$",
                  quick=dict(shards=2, checks=400, timeout=240),
-                 thorough=dict(shards=8, checks=12000, timeout=1800)),
+                 thorough=dict(shards=8, checks=6000, timeout=1800)),
             dict(pkg="seat", run="^TestC16SeatManager$",
                  quick=dict(shards=1, checks=300, timeout=240, gomaxprocs=2),
-                 thorough=dict(shards=4, checks=6000, timeout=1800, gomaxprocs=2)),
+                 thorough=dict(shards=4, checks=3000, timeout=1800, gomaxprocs=2)),
             dict(pkg="table", run="^TestC16Membership$",
                  quick=dict(shards=2, checks=250, timeout=240),
-                 thorough=dict(shards=8, checks=6000, timeout=1800)),
+                 thorough=dict(shards=8, checks=3000, timeout=1800)),
             dict(pkg="table", run="^TestC16Membership$",
                  quick=dict(shards=1, checks=200, timeout=240, gomaxprocs=4),
-                 thorough=dict(shards=4, checks=4000, timeout=1800, gomaxprocs=4)),
+                 thorough=dict(shards=4, checks=2000, timeout=1800, gomaxprocs=4)),
             dict(pkg="table", run="^TestC16Actions$",
                  quick=dict(shards=3, checks=120, timeout=300),
-                 thorough=dict(shards=12, checks=2500, timeout=1800)),
+                 thorough=dict(shards=12, checks=1250, timeout=1800)),
             dict(pkg="table", run="^TestC16Actions$",
                  quick=dict(shards=1, checks=100, timeout=300, gomaxprocs=2),
-                 thorough=dict(shards=4, checks=1500, timeout=1800, gomaxprocs=2)),
+                 thorough=dict(shards=4, checks=750, timeout=1800, gomaxprocs=2)),
         ],
         rule="generated concurrent workloads released by a barrier, N goroutines 2..16 (quick) / 2..48 (thorough), at several GOMAXPROCS values: (a) seat-manager AssignSeats/RandomAssignSeats/RemoveSeats/JoinPlayers/UpdatePlayerHasChips bursts with colliding seats; (b) table PlayerReserve (fixed colliding seats, random seats up to and beyond capacity, re-buys) / PlayersLeave / UpdateTablePlayers bursts on a table before its first hand; (c) at a drawn turn of a real hand every player at the table and strangers submit an action at once; oracle: (a)(b) the history is linearizable with respect to the sequential seat model (porcupine, nondeterministic for random seats) and the C03 consistency predicate holds afterwards; (c) accepted submissions = announced actions, every successful backend call was made for the entry whose turn it then was, the hand settles with chips conserved; a fatal runtime error of the process is a violation; non-trivial = a burst with conflicting operations (same seat / capacity edge / same turn); distinct = distinct workloads",
         mandatory=dict(quick=['leave_via_batch_update', "conflict_same_seat", "capacity_edge", "overlapping", "burst", "accepted_per_burst_1", "GOMAXPROCS2", "GOMAXPROCS16"]),
